@@ -226,3 +226,125 @@ def gen_append(rng, tier):
         g.check(True)
         cases.append(Case("mixed-%d" % i, g.ops, True, "random"))
     return cases
+
+
+# ---------------------------------------------------------------------------------------------------------
+# the whole log through FileStore (model `logstore`): several files, rollover, compaction pointers
+
+
+class S:
+    def __init__(self, rng, geom, start=1):
+        self.rng = rng
+        self.ops = ["open" + (" geom=%d,%d" % geom if geom else "")]
+        self.start = start
+        self.nxt = None          # next index, None before the first append
+        self.term = 1
+        self.floor = start       # lowest index that may be cut (above the installed compaction pointer)
+        self.ptrs = []           # compaction pointers handed over so far
+        self.seed = 0
+
+    def _sd(self, n=1):
+        self.seed += n
+        return self.seed - n
+
+    def append(self, n=1, batch=None, size=None):
+        r = self.rng
+        if self.nxt is None:
+            self.nxt = self.start
+        if r.random() < 0.15:
+            self.term += r.choice([1, 1, 3])
+        size = r.choice([0, 5, 5, 40, 200, 1000]) if size is None else size
+        if batch or (batch is None and n > 1):
+            self.ops.append("b %d %d %d %d %d" % (self.nxt, self.term, n, size, self._sd(n)))
+        else:
+            for _ in range(n):
+                self.ops.append("a %d %d %d %d" % (self.nxt, self.term, size, self._sd()))
+                self.nxt += 1
+            return
+        self.nxt += n
+
+    def bad_append(self):
+        if self.nxt is None:
+            return
+        i = self.rng.choice([self.nxt + 1, self.nxt + 7, max(self.nxt - 1, 0), max(self.nxt - 5, 0)])
+        if i != self.nxt:
+            self.ops.append(self.rng.choice(["a %d %d 3 %d", "b %d %d 2 3 %d"]) % ((i, self.term, self._sd(2))))
+
+    def cut(self, k):
+        if self.nxt is None or k < self.floor:
+            return
+        self.ops.append("del %d" % k)
+        if k < self.nxt:
+            self.nxt = k
+
+    def compact(self):
+        if self.nxt is None or self.nxt - 1 < self.floor:
+            return
+        i = self.rng.randrange(self.floor, self.nxt)
+        if self.ptrs and i <= self.ptrs[-1]:
+            return
+        self.ops.append("compact %d %d" % (i, self.term))
+        self.ptrs.append(i)
+        if len(self.ptrs) >= 2:
+            # the pointer of the compaction before this one is installed now
+            self.floor = self.ptrs[-2] + 1
+
+    def look(self):
+        r = self.rng
+        hi = (self.nxt or self.start) + 3
+        a = r.randrange(0, hi)
+        self.ops.append("get %d %d" % (a, a + r.choice([1, 3, 10, 50, 10000])))
+
+    def check(self, reopen):
+        if reopen:
+            self.ops.append("reopen")
+        self.ops += ["last", "get 0 1000000", "files"]
+
+
+def gen_store(rng, tier, mode):
+    cases = []
+    big = tier == "thorough"
+    geoms = [(4, 64), (4, 64), (3, 100), (8, 128), (5, 64), None]
+    for i in range((500 if big else 70)):
+        geom = rng.choice(geoms)
+        s = S(rng, geom, start=rng.choice([1, 1, 1, 20]))
+        for _ in range(rng.randrange(4, 14)):
+            r = rng.random()
+            if mode == "trunc":
+                w = [0.35, 0.3, 0.08, 0.08, 0.05, 0.14]
+            else:
+                w = [0.5, 0.08, 0.12, 0.1, 0.06, 0.14]
+            if r < w[0]:
+                n = rng.choice([1, 1, 2, 3, 10, 30, 47, 60, 100])
+                s.append(n, batch=rng.random() < 0.6 if n > 1 else None, size=rng.choice([None, 5]))
+            elif r < w[0] + w[1] and s.nxt is not None:
+                k = rng.choice([s.nxt - 1, s.nxt, s.nxt + 2, rng.randrange(s.floor, s.nxt + 1), rng.randrange(s.floor, s.nxt + 1)])
+                s.cut(max(k, s.floor))
+            elif r < sum(w[:3]):
+                s.ops.append("reopen")
+            elif r < sum(w[:4]):
+                s.compact()
+            elif r < sum(w[:5]):
+                s.bad_append()
+            else:
+                s.look()
+        s.check(False)
+        s.check(True)
+        cases.append(Case("store-%d" % i, s.ops, True, "random"))
+    # directed: a cut in every file of a three-file log and on the file boundaries, then re-append and reopen
+    for geom in [(4, 64), (3, 100)]:
+        probe = S(rng, geom)
+        per = {(4, 64): 44, (3, 100): 60}[geom]
+        for k in sorted(set([1, 2, per - 1, per, per + 1, per + 2, 2 * per, 2 * per + 1, 2 * per + 5, 2 * per + 19, 2 * per + 20, 2 * per + 21])):
+            for re in ([1, 0] if big else [1]):
+                s = S(rng, geom)
+                s.append(2 * per + 20, batch=True, size=5)
+                if re == 0:
+                    s.ops.append("reopen")
+                s.cut(k)
+                s.ops += ["last", "get %d %d" % (max(k - 3, 0), k + 5)]
+                s.append(rng.choice([1, 3, per]), size=rng.choice([0, 5, 300]))
+                s.check(False)
+                s.check(True)
+                cases.append(Case("filecut-%d_%d-k%d-%d" % (geom[0], geom[1], k, re), s.ops, True, "boundary"))
+    return cases
